@@ -1,6 +1,7 @@
 package props
 
 import (
+	"verif/fold"
 	"fmt"
 	"os"
 	"regexp"
@@ -82,8 +83,8 @@ func classify(t *sq.Table, col string, want, got sq.Val) string {
 		}
 		if gs, ok := got.(string); ok && cdef.Dflt != nil {
 			// DEFAULT TRUE / DEFAULT FALSE: SQLite (3.23+) reads the bare keywords as 1 / 0
-			d := strings.ToLower(strings.TrimSpace(*cdef.Dflt))
-			if (d == "true" || d == "false") && strings.ToLower(gs) == d {
+			d := fold.Lower(strings.TrimSpace(*cdef.Dflt))
+			if (d == "true" || d == "false") && fold.Lower(gs) == d {
 				if n, isNum := asNumber(want); isNum && ((d == "true" && n == 1) || (d == "false" && n == 0)) {
 					return "default-true-false"
 				}
@@ -216,7 +217,7 @@ func strsEqFold(a, b []string) bool {
 		return false
 	}
 	for i := range a {
-		if !strings.EqualFold(a[i], b[i]) {
+		if !fold.Equal(a[i], b[i]) {
 			return false
 		}
 	}
